@@ -15,6 +15,8 @@
  *                                              the (begin, end) the update function was invoked with ("-" = not invoked)
  *                                              and the segments it returned
  *   Q <id> <t,t,...> | <bits>                  IsInside(t) for every t
+ *   G <id> <now> | <bits>                      virtual clock := now; the `is_inside` attribute as the consumers read it: GetIsInside() and the
+ *                                              reflected field "is_inside" (what the API and the DSL see); two bits.
  *   K <b> <e> <ranges> | <segs>                LegacyTimePeriod::ScriptFunc on a period with these ranges ("!" = threw)
  *   A <id> <now> <own> | <vb> <ve> <segs> <fb> <fe> <ownret>
  *                                              virtual clock := now; PreActivate() + Activate() of the period, i.e. the real
@@ -291,6 +293,19 @@ static void EnsureSentinel()
 	l_Sentinel->PreActivate(); /* active, but never started: it must not be what creates the timer */
 }
 
+static bool OpGet(int id, long long now)
+{
+	auto it = l_ById.find(id);
+	if (it == l_ById.end()) return false;
+	TimePeriod::Ptr tp = it->second->tp;
+	SetNow((double)now);
+	bool direct = tp->GetIsInside();
+	int fid = tp->GetReflectionType()->GetFieldId("is_inside");
+	bool reflected = fid >= 0 && tp->GetField(fid).ToBool();
+	printf("G %d %lld | %c%c\n", id, now, direct ? '1' : '0', reflected ? '1' : '0');
+	return true;
+}
+
 static std::string ObsOf(PInfo *pi, bool threw)
 {
 	std::string f = pi->invoked ? std::to_string(pi->fb) + " " + std::to_string(pi->fe) : std::string("- -");
@@ -565,6 +580,7 @@ static void RandomTicks(Rng& rng, int n)
 			if (rng.below(4) == 0) now += (long long)rng.below(200);
 		}
 		OpQuery(0, BoundaryTs(rng, all, now - 3600, now + 86400));
+		OpGet((int)rng.below((uint64_t)np), now);
 		int ticks = 1 + (int)rng.below(5);
 		for (int f = 0; f < ticks; f++) {
 			static const long long jumps[] = { 0, 0, 300, 3000, 20000, 50000 };
@@ -580,6 +596,18 @@ static void RandomTicks(Rng& rng, int n)
 			probe.push_back({ Seg(now - 3600, now + 86400) });
 			OpQuery((int)rng.below((uint64_t)np), BoundaryTs(rng, probe, now - 3600, now + 86400));
 			if (rng.coin()) OpQuery(0, BoundaryTs(rng, probe, now - 3600, now + 86400));
+			/* the attribute at the (virtual) present, a little after the run; the next run is at least 300 s later */
+			if (rng.coin()) {
+				/* ... or anywhere else (the clock of a consumer need not be the clock of the last timer run): beyond the window, at its
+				 * end, at a boundary.  The next T line sets the clock again. */
+				long long g = now + (long long)rng.below(250);
+				switch ((int)rng.below(4)) {
+				case 0: g = now + 86400 - 2 + (long long)rng.below(6000); break;
+				case 1: { auto ts = SplitStr(BoundaryTs(rng, probe, now - 3600, now + 86400), ','); g = atoll(ts[rng.below(ts.size())].c_str()); break; }
+				default: break;
+				}
+				OpGet((int)rng.below((uint64_t)np), g);
+			}
 		}
 		l_TickBase = now + 400000;
 	}
@@ -922,6 +950,7 @@ static void GenCalTicks(Rng& rng, bool thorough, const std::vector<long long>& c
 			now += jumps[rng.below(7)] + (long long)rng.below(3);
 			OpTick(now, "-");
 			OpQuery(0, probe(now - 3600, now + 86400));
+			OpGet(0, now + (long long)rng.below(250));
 			if (withExc && rng.below(4) == 0) OpQuery(1, probe(now - 3600, now + 86400));
 		}
 	}
@@ -1065,6 +1094,7 @@ int main(int argc, char **argv)
 			else if (w[0] == "P" && w.size() >= 6) OpPeriod(atoi(w[1].c_str()), atoi(w[2].c_str()), w[3], w[4], w[5]);
 			else if (w[0] == "U" && w.size() >= 6) ok = OpUpdate(atoi(w[1].c_str()), atoll(w[2].c_str()), atoll(w[3].c_str()), atoi(w[4].c_str()), w[5]);
 			else if (w[0] == "Q" && w.size() >= 3) ok = OpQuery(atoi(w[1].c_str()), w[2]);
+			else if (w[0] == "G" && w.size() >= 3) ok = OpGet(atoi(w[1].c_str()), atoll(w[2].c_str()));
 			else if (w[0] == "K" && w.size() >= 4) OpScript(atoll(w[1].c_str()), atoll(w[2].c_str()), w[3]);
 			else if (w[0] == "A" && w.size() >= 4) ok = OpActivate(atoi(w[1].c_str()), atoll(w[2].c_str()), w[3]);
 			else if (w[0] == "T" && w.size() >= 3) OpTick(atoll(w[1].c_str()), w[2]);
